@@ -18,19 +18,19 @@ COMMON_NOTE = ("Trusted base: CPython's ast parse of /repo/fim is the program; c
 P = {
  'C01': dict(
     technique='AST wiring rules over the serialization pipeline (format dispatch, must-pass-through, def-use of the graph id, copy completeness)',
-    text='Decides structural necessary conditions of the round trip: every serialisable format has a reader in READ_FORMATS and a branch in serialize_graph; the GraphML producers pass through the label-markup step whose two loops set label/labels on every element; the four import entry points reach one reader and a store insert whose graph id is the id the returned handle is built with; add_graph stamps GraphID on every node after the NodeID check and replaces an existing graph of that id found in the store; extract_graph copies node and edge data; identity properties are stamped at creation. Value fidelity through networkx/lxml is not decided. Also decided: value flow (CFG taint) of GraphML text through the label markup, the GraphML writer is not switched to options the default reader cannot undo, and every constant the library itself stores in a JSON-typed property is skipped by graph validation (guard partially evaluated on the constant). The replacement of a stored graph of the same id is guarded by nothing but the lookup having found it. Every networkx producer in serialize_graph is handed the copy extracted for this graph id, and the lookup for an already stored graph selects by GraphID.',
+    text='Decides structural necessary conditions of the round trip: every serialisable format has a reader in READ_FORMATS and a branch in serialize_graph; the GraphML producers pass through the label-markup step whose two loops set label/labels on every element; the four import entry points reach one reader and a store insert whose graph id is the id the returned handle is built with; add_graph stamps GraphID on every node after the NodeID check and replaces an existing graph of that id found in the store; extract_graph copies node and edge data; identity properties are stamped at creation. Value fidelity through networkx/lxml is not decided. Also decided: value flow (CFG taint) of GraphML text through the label markup, the GraphML writer is not switched to options the default reader cannot undo, and every constant the library itself stores in a JSON-typed property is skipped by graph validation (guard partially evaluated on the constant). The replacement of a stored graph of the same id is guarded by nothing but the lookup having found it. Every networkx producer in serialize_graph is handed the copy extracted for this graph id, and the lookup for an already stored graph selects by GraphID. A (re-)import moves the id allocator past the imported nodes on every path (shared-store insert dominated by the counter advance that follows the relabelling; per-graph counter reset on every path after the fill).',
     ref='3 C01'),
  'C02': dict(
     technique='table-agreement analysis: writer/reader/setter/unset-map rows extracted from the AST and compared per sliver class; codec pairing; dispatch agreement',
-    text='Decides that for every sliver class the set of properties written to the graph equals the set read back, that each row uses matching encode/decode codecs and the same graph property constant, that every settable stored property has an unset mapping, that each model element class uses the writer/reader of its own kind, and that deep-dictionary child keys agree and recurse. Field-wise value equality is not decided. Also decided: the deep graph writers store the children of a sliver under no condition other than the sliver having that container. A composite value joined from n parts with a separator is split back with a bound of n-1 from the side whose part may contain the separator. Deep readers create a child container once per parent (not per child); every child container the deep reader of a kind rebuilds is written by the deep writer of that kind; every writer row is guarded by the attribute being set, so a set_property() that builds a fresh sliver cannot reset another property from a constructor default; conversely, no reader takes a conditionally written property with a bare subscript / pop (only identity properties are read without a presence test).',
+    text='Decides that for every sliver class the set of properties written to the graph equals the set read back, that each row uses matching encode/decode codecs and the same graph property constant, that every settable stored property has an unset mapping, that each model element class uses the writer/reader of its own kind, and that deep-dictionary child keys agree and recurse. Field-wise value equality is not decided. Also decided: the deep graph writers store the children of a sliver under no condition other than the sliver having that container. A composite value joined from n parts with a separator is split back with a bound of n-1 from the side whose part may contain the separator. Deep readers create a child container once per parent (not per child); every child container the deep reader of a kind rebuilds is written by the deep writer of that kind; every writer row is guarded by the attribute being set, so a set_property() that builds a fresh sliver cannot reset another property from a constructor default; conversely, no reader takes a conditionally written property with a bare subscript / pop (only identity properties are read without a presence test). The parent handed to a nested deep writer is the node id of the writer\'s own sliver.',
     ref='3 C02'),
  'C03': dict(
     technique='abstract-domain check of encoder drop predicates against admitted field types and defaults; guard dominance on the CFG; purity (no store through the input); None-dereference check of encoders',
-    text='Decides: no codec drops a legitimate non-default value (drop predicate vs admitted types vs constructor defaults), forgiving decode keeps processing after an unknown key, copy-with-changes never stores through its input and builds a fresh object, every mutator of a maintenance record is dominated by the finalized guard and copies do not alias the node table, to_json of a fresh value does not dereference None, encoder/decoder representations of flag-like fields agree. x == decode(encode(x)) over the value domain is not decided. Also decided: the unknown-field handler sits inside the per-field loop, and every key a dict decoder reads reaches the state of the decoded object (constructor argument or attribute), not only a branch condition. An unknown key is skipped whatever its value (the decoder restricts the decoded keys to the fields of the new object, or no setter checks a value before it has probed the field); decoders that expand an entry into a constructor tolerate unknown keys; a decoder that wraps another decoder passes \'absent\' through.',
+    text='Decides: no codec drops a legitimate non-default value (drop predicate vs admitted types vs constructor defaults), forgiving decode keeps processing after an unknown key, copy-with-changes never stores through its input and builds a fresh object, every mutator of a maintenance record is dominated by the finalized guard and copies do not alias the node table, to_json of a fresh value does not dereference None, encoder/decoder representations of flag-like fields agree. x == decode(encode(x)) over the value domain is not decided. Also decided: the unknown-field handler sits inside the per-field loop, and every key a dict decoder reads reaches the state of the decoded object (constructor argument or attribute), not only a branch condition. An unknown key is skipped whatever its value (the decoder restricts the decoded keys to the fields of the new object, or no setter checks a value before it has probed the field); decoders that expand an entry into a constructor tolerate unknown keys; a decoder that wraps another decoder passes \'absent\' through. A flag written as str(<bool>) is decoded by a token table that maps exactly \'True\' to set.',
     ref='3 C03'),
  'C04': dict(
     technique='query-scope analysis (every node enumeration carries a GraphID conjunct), def-use of internal ids for writes, allocator monotonicity, whole-store operation who-may-call',
-    text='Decides that every enumeration of the shared store is scoped by the graph id, every node-addressed write uses an internal id obtained from a scoped lookup, the id allocators only advance by the number of inserted nodes and inserts happen after validation, clone goes extract(copy)->add, and whole-store operations are confined to the storage classes. The frame condition over histories is not decided. Also decided: the one-graph-per-store flavour may skip an import only when a non-empty graph is stored under the id (delete / probe then re-import). In the storage add_graph methods no rejection is reachable after the first change of the store (a refused re-import leaves the stored graph alone).',
+    text='Decides that every enumeration of the shared store is scoped by the graph id, every node-addressed write uses an internal id obtained from a scoped lookup, the id allocators only advance by the number of inserted nodes and inserts happen after validation, clone goes extract(copy)->add, and whole-store operations are confined to the storage classes. The frame condition over histories is not decided. Also decided: the one-graph-per-store flavour may skip an import only when a non-empty graph is stored under the id (delete / probe then re-import). In the storage add_graph methods no rejection is reachable after the first change of the store (a refused re-import leaves the stored graph alone). The allocator path rule of C01 R8 applies to both stores (a re-import that keeps an old counter is reported).',
     ref='3 C04'),
  'C05': dict(
     technique='guard-dominance on the CFG for identity properties; key-set comparison of insertion guard vs lookup; override/signature inventory of sibling backends; def-use in merge policy loop',
@@ -42,7 +42,7 @@ P = {
     ref='3 C06'),
  'C07': dict(
     technique='vocabulary agreement between enums and the rule file; containment-schema extraction and agreement; guard dominance for uniqueness; cache-update pairing; loop-index discipline; view immutability',
-    text='Decides that the published rule vocabularies contain every enum member the API can create, that all readers/removers traverse pairs of the containment schema defined by the writers, that node and owner edge are created together, that creation paths are dominated by their uniqueness guard and node ids are unique across classes, that read-only views expose no mutator and no cache escapes, that handle caches are updated on add, and that derived-id loop indices are advanced once per iteration. Invariants over all histories are not decided. Also decided: Link constructors accept Interface objects only; every sliver class declares the type enumeration its set_type asserts; the interface kind produced for each component type by generate_component (evaluated per ComponentType member) is one the rule file knows; the name-uniqueness listing compared is not filtered by element kind. The interface cache of a handle is rebuilt without the removed child after every removal through it (shared with C08).',
+    text='Decides that the published rule vocabularies contain every enum member the API can create, that all readers/removers traverse pairs of the containment schema defined by the writers, that node and owner edge are created together, that creation paths are dominated by their uniqueness guard and node ids are unique across classes, that read-only views expose no mutator and no cache escapes, that handle caches are updated on add, and that derived-id loop indices are advanced once per iteration. Invariants over all histories are not decided. Also decided: Link constructors accept Interface objects only; every sliver class declares the type enumeration its set_type asserts; the interface kind produced for each component type by generate_component (evaluated per ComponentType member) is one the rule file knows; the name-uniqueness listing compared is not filtered by element kind. The interface cache of a handle is rebuilt without the removed child after every removal through it (shared with C08). Removing a sub-interface leaves its parent port in place (delete_parent switched off at the call, shared with C08).',
     ref='3 C07'),
  'C08': dict(
     technique='sibling agreement of removal paths (cache coherence), schema coverage of removal cascades, collect-before-delete ordering on the CFG, disconnect-before-remove must-precede',
@@ -50,7 +50,7 @@ P = {
     ref='3 C08'),
  'C09': dict(
     technique='validate-before-mutate ordering over constructor CFGs with a MUT/REJ call-graph summary; handler-breadth check of the rollback; eager evaluation of arguments consumed after the first mutation',
-    text='Decides that in the five element constructors no rejecting statement is reachable after the first graph mutation outside a compensated try, that the rollback handler covers every exception class the guarded body can raise and undoes each creation step, that uniqueness checks dominate inserts, and reports composite operations without compensation (known findings). Atomicity for rejections that depend on stored ids is not decided. Also decided: the creation step that receives the caller\'s **kwargs is the first creation step of a composite (or compensated), and a rollback handler that removes id X does not also guard the call that creates X. An element is recorded for compensation only after the step that creates it, compensation addresses the created element\'s own node id, and the link writer verifies every referenced interface id is a stored ConnectionPoint before inserting the Link. Also: a universally quantified existence check guards the Link insert; nothing fallible runs between the creation of an element and its recording for rollback; the deep graph writers probe the parent and every node id of the sliver tree before their first insertion.',
+    text='Decides that in the five element constructors no rejecting statement is reachable after the first graph mutation outside a compensated try, that the rollback handler covers every exception class the guarded body can raise and undoes each creation step, that uniqueness checks dominate inserts, and reports composite operations without compensation (known findings). Atomicity for rejections that depend on stored ids is not decided. Also decided: the creation step that receives the caller\'s **kwargs is the first creation step of a composite (or compensated), and a rollback handler that removes id X does not also guard the call that creates X. An element is recorded for compensation only after the step that creates it, compensation addresses the created element\'s own node id, and the link writer verifies every referenced interface id is a stored ConnectionPoint before inserting the Link. Also: a universally quantified existence check guards the Link insert; nothing fallible runs between the creation of an element and its recording for rollback; the deep graph writers probe the parent and every node id of the sliver tree before their first insertion. The collector of the tree ids descends by recursion or worklist (not one level); a handler that undoes and re-raises catches Exception.',
     ref='3 C09'),
  'C10': dict(
     technique='constraint-table exhaustiveness over enums, name resolution of listed properties against getters and readers, comparator normalisation per column, must-pass-through of guardrails, dead-comparison detection',
@@ -62,7 +62,7 @@ P = {
     ref='3 C11'),
  'C12': dict(
     technique='guard dominance for delegation field writes, key-constant agreement of encoder/decoder, loop-carried guard state, index rebuild discipline',
-    text='Decides that delegation details and the delegations table are only written behind their type/format/duplicate guards evaluated against live state, that to_json/from_json use the same keys for all three formats, that pool regrouping writes and reads the same fields and rebuilds its index from scratch, and that conflict checks precede graph writes. The identity pools->delegations->pools over all families is not decided. Also decided: encoder and decoder as (format, type) tables from path-sensitive evaluation; every field of a decoded entry is determined within its own loop iteration. Per-node delegation containers are created only when the node has none yet (get-or-create). The decoder, evaluated for the key sets an entry can carry, rejects mixed label/capacity content and details on a pool reference.',
+    text='Decides that delegation details and the delegations table are only written behind their type/format/duplicate guards evaluated against live state, that to_json/from_json use the same keys for all three formats, that pool regrouping writes and reads the same fields and rebuilds its index from scratch, and that conflict checks precede graph writes. The identity pools->delegations->pools over all families is not decided. Also decided: encoder and decoder as (format, type) tables from path-sensitive evaluation; every field of a decoded entry is determined within its own loop iteration. Per-node delegation containers are created only when the node has none yet (get-or-create). The decoder, evaluated for the key sets an entry can carry, rejects mixed label/capacity content and details on a pool reference. Details of either kind on a reference are refused in sets of either type.',
     ref='3 C12'),
  'C13': dict(
     technique='receiver analysis (mutations only on the clone), loop-range coverage, monotone keep-set construction, schema agreement of traces, partial-callee precondition, flag-scope analysis',
@@ -70,7 +70,7 @@ P = {
     ref='3 C13'),
  'C14': dict(
     technique='receiver analysis (sources never mutated), key agreement across the three uses of the contributing id, written-vs-undone property sets, ordering of rollback steps, flag-scope analysis, fresh-id-per-call',
-    text='Decides that merge mutates only the temporary clone and the combined model, that delegations/structural info/contributor lists are keyed by the real model id, that properties written by merge are handled by unmerge, that rollback deletes before re-homing, that snapshot ids are generated per call, that the one-side-speaks guard precedes the write and the write-back flag covers both delegation kinds. Order independence and merge/unmerge inversion as algebra are not decided. Also decided: what is merged in is the re-keyed temporary clone, never the source; what unmerge writes when a node\'s last delegation goes is a value the decoder reads back as absent. The contributor appended is the one decoded from the node in the same iteration and written back to it; delegation clean-up on unmerge does not depend on the remaining contributor list. The per-property loop of the delegation update is never left early; no property dictionary read before another write is written back as a whole; what unmerge leaves when the last delegation goes is absent for every reader of the property (the property is removed).',
+    text='Decides that merge mutates only the temporary clone and the combined model, that delegations/structural info/contributor lists are keyed by the real model id, that properties written by merge are handled by unmerge, that rollback deletes before re-homing, that snapshot ids are generated per call, that the one-side-speaks guard precedes the write and the write-back flag covers both delegation kinds. Order independence and merge/unmerge inversion as algebra are not decided. Also decided: what is merged in is the re-keyed temporary clone, never the source; what unmerge writes when a node\'s last delegation goes is a value the decoder reads back as absent. The contributor appended is the one decoded from the node in the same iteration and written back to it; delegation clean-up on unmerge does not depend on the remaining contributor list. The per-property loop of the delegation update is never left early; no property dictionary read before another write is written back as a whole; what unmerge leaves when the last delegation goes is absent for every reader of the property (the property is removed). In rewrite_delegations no non-raising path from the decoding of a delegation property avoids the re-keying and the write-back; nothing decoded for one delegation property is still read in the iteration of the next.',
     ref='3 C14'),
  'C15': dict(
     technique='structural premises of point-wise integer arithmetic checked on the AST (operator lifts, operand purity, comparator mirror, truthiness-free equality); the algebraic laws follow by a stated lemma',
@@ -82,19 +82,19 @@ P = {
     ref='3 C16'),
  'C17': dict(
     technique='mirrored-argument analysis of the diff helpers, value-equality resolution of compared types, case completeness, flag accumulation (|= not =)',
-    text='Decides that each _dict_diff/_dict_common call compares the same attribute path rooted at self and at the other sliver, that every type compared by prop_diff defines value equality on decoded values, that the three one-sided cases exist per container, that result keys agree and flags are accumulated rather than overwritten. Exactness over all edit scripts is not decided. Also decided: the elements handed to prop_diff range over all common elements; equality of the compared field containers ranges over every field of the left value. Each common element is compared with its counterpart looked up in the other sliver by the element\'s key; SUB_INTERFACES is raised for exactly the component types whose ports are dedicated ports (per the catalogue dispatch) and only when the nested diff reports added/removed/modified sub-interfaces.',
+    text='Decides that each _dict_diff/_dict_common call compares the same attribute path rooted at self and at the other sliver, that every type compared by prop_diff defines value equality on decoded values, that the three one-sided cases exist per container, that result keys agree and flags are accumulated rather than overwritten. Exactness over all edit scripts is not decided. Also decided: the elements handed to prop_diff range over all common elements; equality of the compared field containers ranges over every field of the left value. Each common element is compared with its counterpart looked up in the other sliver by the element\'s key; SUB_INTERFACES is raised for exactly the component types whose ports are dedicated ports (per the catalogue dispatch) and only when the nested diff reports added/removed/modified sub-interfaces. The test that chooses between a diff and None looks at every collection the diff is built from.',
     ref='3 C17'),
  'C18': dict(
     technique='data lints over the two catalogue files analysed as source; AST shape of the sufficiency predicate, ordering step and fallback; loop-index discipline and kind dispatch in generate_component',
-    text='Decides: catalogue names encode their capacities, are duplicate-free, the last entry is the maximum; the candidate filter is the conjunction core/ram/disk >=; the candidates are ordered before the first is taken and the empty case returns the last key; caller-supplied ids and labels are applied independently under one index advanced once per iteration; interface kind/speed come from the matched row. Minimality of the chosen size is NOT decided (depends on list.sort under a partial order on this data). The instance table is built by iterating the decoded catalogue file itself (file order is what \'last key\' and stable ties rely on); id and label counts are checked whenever that list is supplied; the unit count is a length only of a list-valued bdf; the catalogue lookup, as a selection condition, implies type equality and a model match.',
+    text='Decides: catalogue names encode their capacities, are duplicate-free, the last entry is the maximum; the candidate filter is the conjunction core/ram/disk >=; the candidates are ordered before the first is taken and the empty case returns the last key; caller-supplied ids and labels are applied independently under one index advanced once per iteration; interface kind/speed come from the matched row. Minimality of the chosen size is NOT decided (depends on list.sort under a partial order on this data). The instance table is built by iterating the decoded catalogue file itself (file order is what \'last key\' and stable ties rely on); id and label counts are checked whenever that list is supplied; the unit count is a length only of a list-valued bdf; the catalogue lookup, as a selection condition, implies type equality and a model match. The interface kind per component type is evaluated through temporaries that were themselves chosen by the component type.',
     ref='3 C18'),
  'C19': dict(
     technique='symbolic string-template reconstruction per path + hand Cypher tokenizer: balance, unexpanded fragments, bound variables, supplied parameters, data-taint of holes',
-    text='Decides the property whole for the statements the library can emit: for all 44 session.run sites and the 2 JSON statement files every template is balanced, free of unexpanded fragments, binds every variable it references, is supplied every $parameter it names, and interpolates identifiers only; the remaining data-interpolating statements are listed as known findings. Also: no clause or operator keyword without an operand and no empty map/list element; an emptiness test and a loop over the same collection agree along one path. One assumption is used and re-checked on every run: AttachedComponentsInfo.add_device asserts that a device has a type.',
+    text='Decides the property whole for the statements the library can emit: for all 44 session.run sites and the 2 JSON statement files every template is balanced, free of unexpanded fragments, binds every variable it references, is supplied every $parameter it names, and interpolates identifiers only; the remaining data-interpolating statements are listed as known findings. Also: no clause or operator keyword without an operand and no empty map/list element; an emptiness test and a loop over the same collection agree along one path. One assumption is used and re-checked on every run: AttachedComponentsInfo.add_device asserts that a device has a type. A driver-calling helper that receives its statement as a parameter is analysed once per caller; self.NAME reads fold to class-level constants.',
     ref='3 C19'),
  'C20': dict(
     technique='abstract lock-depth dataflow over a CFG with exceptional edges; lockset analysis of allocator and structure accesses; lock-held call discipline',
-    text='Decides completely that every storage method releases the lock exactly once on every normal, early-return and exceptional path, never re-acquires it while held, touches the id allocators and the graph structure only with the lock held, and creates the singleton under a lock; by mutual exclusion no identifier is issued twice and no insert under the lock is lost. Outcomes of interleavings of the unlocked graph-level operations are not decided. Also decided: the existence test of the storage singleton is evaluated under the creation lock. Locals that name a stored graph object count as the structure itself (a copy taken after the lock was released is a violation).',
+    text='Decides completely that every storage method releases the lock exactly once on every normal, early-return and exceptional path, never re-acquires it while held, touches the id allocators and the graph structure only with the lock held, and creates the singleton under a lock; by mutual exclusion no identifier is issued twice and no insert under the lock is lost. Outcomes of interleavings of the unlocked graph-level operations are not decided. Also decided: the existence test of the storage singleton is evaluated under the creation lock. Locals that name a stored graph object count as the structure itself (a copy taken after the lock was released is a violation). Private helpers without locking of their own inherit the lock depth of their call sites (fixpoint); an access in a helper that is also called without the lock is a violation.',
     ref='3 C20'),
 }
 
